@@ -315,6 +315,82 @@ fn run_l<L: Language + 'static>(c: &SatCase, obs: &mut Obs) -> Result<(), String
     Ok(())
 }
 
+// ---------------------------------------------------------------------------------------------
+// a run whose time limit expires in the middle of an iteration (a searcher that takes long once)
+// ---------------------------------------------------------------------------------------------
+
+#[derive(Clone, Debug, PartialEq, Eq, Hash, Serialize, Deserialize)]
+pub struct SlowCase {
+    /// 1: Runner, 2: run_eqsat
+    pub mode: u8,
+    /// the slow rule's searcher sleeps on this call (0-based)
+    pub sleep_on_call: u8,
+    pub sleep_ms: u32,
+    pub slow_first: bool,
+    /// 0: (w ?a) => (w (w ?a)) on (w (v $a)); 1: (p ?a ?b) => (p (w ?a) ?b) on (p (v $a) c0)
+    pub grow: u8,
+}
+
+fn run_slow(c: &SlowCase, obs: &mut Obs) -> Result<(), String> {
+    let nm = Naming::Alpha;
+    let (start, grow): (&str, RuleTxt) = if c.grow % 2 == 0 {
+        ("(w (v $a))", RuleTxt { name: "w-grow", lhs: "(w ?a)", rhs: "(w (w ?a))", not_free: None, has_subst: false })
+    } else {
+        ("(p (v $a) c0)", RuleTxt { name: "p-grow", lhs: "(p ?a ?b)", rhs: "(p (w ?a) ?b)", not_free: None, has_subst: false })
+    };
+    let mut eg: EGraph<Core> = EGraph::default();
+    let t0 = crate::tm::parse_tm_text(&LangId::Core.sig(), start)?;
+    eg.add_expr(parse_tm::<Core>(&t0, &nm));
+    let rules_txt = vec![grow.clone()];
+    let calls = Rc::new(RefCell::new(0u32));
+    let calls2 = calls.clone();
+    let (on, ms) = (c.sleep_on_call as u32, c.sleep_ms as u64);
+    let slow: Rewrite<Core, ()> = RewriteT {
+        searcher: Box::new(move |_eg: &EGraph<Core, ()>| {
+            let mut k = calls2.borrow_mut();
+            if *k == on {
+                std::thread::sleep(Duration::from_millis(ms));
+            }
+            *k += 1;
+        }),
+        applier: Box::new(|_: (), _eg: &mut EGraph<Core, ()>| {}),
+    }
+    .into();
+    let mut rules: Vec<Rewrite<Core, ()>> = vec![build_rule::<Core, ()>(&grow)];
+    if c.slow_first {
+        rules.insert(0, slow);
+    } else {
+        rules.push(slow);
+    }
+    let iter_limit = 5usize;
+    let (reason, nodes_reported) = if c.mode % 2 == 1 {
+        let mut runner: Runner<Core, (), (), String> = Runner::new(()).with_egraph(eg).with_iter_limit(iter_limit).with_node_limit(10_000).with_time_limit(Duration::from_secs(1));
+        let rep = runner.run(&rules);
+        eg = runner.egraph;
+        (rep.stop_reason, rep.egraph_nodes)
+    } else {
+        let rep = run_eqsat(&mut eg, rules, iter_limit, 1, |_eg| Ok(()));
+        (rep.stop_reason, rep.egraph_nodes)
+    };
+    obs.cmp(2);
+    if nodes_reported != eg.total_number_of_nodes() {
+        return Err(format!("report.egraph_nodes = {} but the e-graph has {} e-nodes", nodes_reported, eg.total_number_of_nodes()));
+    }
+    match &reason {
+        StopReason::Saturated => {
+            obs.label("saturated");
+            let tr = tracked(&eg, &[t0.clone()], &nm);
+            saturated_check(&mut eg, &rules_txt, &tr, obs).map_err(|e| format!("a searcher took {} ms on its call {} with a time limit of 1 s; {e}", ms, on))?;
+        }
+        StopReason::TimeLimit => obs.label("time-limit"),
+        StopReason::IterationLimit => obs.label("iteration-limit"),
+        StopReason::NodeLimit => return Err("NodeLimit reported with a limit of 10000 e-nodes".into()),
+        StopReason::Other(e) => return Err(format!("stopped with Other({e}) although no hook fails")),
+    }
+    obs.nontrivial = true;
+    Ok(())
+}
+
 fn strategy(lang: LangId) -> BoxedStrategy<SatCase> {
     let mut cfg = MixedCfg::for_lang(lang);
     cfg.hist.namings = crate::tm::Naming::diverse();
@@ -471,6 +547,28 @@ pub fn property(tier: Tier) -> Property {
         },
         rule: "Runner on start e-graphs whose e-node count first grows and then shrinks: 2-5 parents over a term A and over a context around A that rewrites away in 1-3 iterations (q2-drop, ww, p-c0, plus 0-2 random rules), so that the parents collapse by congruence in a later iteration; iteration limit 0-6, node limit = start size -2..+5; stop reason must be true of the final e-graph, report must agree with it; non-trivial = at least 2 iterations",
         case_timeout_s: tier.pick(30, 120),
+        exhaustive: false,
+    }));
+    stages.push(Box::new(Stage {
+        name: "time-limit-inside-an-iteration",
+        source: Source::Enumerate(std::sync::Arc::new(move || {
+            let mut v = Vec::new();
+            for mode in [1u8, 2] {
+                for sleep_on_call in 0..tier.pick(2u8, 4) {
+                    for slow_first in [false, true] {
+                        for grow in 0..tier.pick(1u8, 2) {
+                            v.push(SlowCase { mode, sleep_on_call, sleep_ms: 2300, slow_first, grow });
+                        }
+                    }
+                }
+            }
+            Box::new(v.into_iter())
+        })),
+        run: run_slow,
+        panic_is_violation: false,
+        render: |c: &SlowCase| format!("{:?}", c),
+        rule: "fixed family: a never-saturating rule next to a rule whose searcher takes 2.3 s on its k-th call (k = 0, 1; thorough 0-3), time limit 1 s, iteration limit 5, driven by Runner::run and run_eqsat: the limit expires in the middle of an iteration; whatever stop reason is reported must be true - Saturated is re-checked by matching and by one more round (the wall clock only provokes the situation, no verdict depends on it)",
+        case_timeout_s: tier.pick(60, 120),
         exhaustive: false,
     }));
     Property { id: "C15", scale: tier.pick(5, 2), stages, assumptions: vec!["time limits are set far away; TimeLimit is never asserted about".into()] }
